@@ -644,6 +644,8 @@ func (in *Interp) intrinsic(name string, fn *ssa.Function, args []Value) []Value
 	case "(*sync.RWMutex).Lock", "(*sync.RWMutex).Unlock", "(*sync.RWMutex).RLock", "(*sync.RWMutex).RUnlock",
 		"(*sync.Mutex).Lock", "(*sync.Mutex).Unlock":
 		return in.lockOp(name, args)
+	case "(*sync.Pool).Get", "(*sync.Pool).Put":
+		return in.poolOp(name, fn, args)
 	case "time.Now", "time.Since", "(time.Time).Sub", "time.Sleep", "(time.Duration).Seconds", "(time.Duration).String":
 		return in.timeStub(name, fn, args)
 	}
@@ -1157,4 +1159,43 @@ func (in *Interp) findRootSummary(args []Value, c *ssa.CallCommon, fr *Frame) []
 	in.assume(ts.FCmp("flt", in.fabs(d), tol))
 	in.notes = appendNote(in.notes, "fn.FindRoot summarised by its contract: minX <= x <= maxX, delta = f(x), |delta| < tolerance (iteration budget assumed sufficient)")
 	return []Value{x, d}
+}
+
+// ---- sync.Pool by its documented contract ----
+// Get returns ANY item previously Put and not yet handed out again, or the result of New (the
+// runtime may drop items at any time): the choice is a fork.  Items come back exactly as they
+// were Put - a pooled buffer that is not cleared by its user keeps its old contents.
+func (in *Interp) poolOp(name string, fn *ssa.Function, args []Value) []Value {
+	p, _ := args[0].(*PtrV)
+	if p == nil || p.obj == nil {
+		in.implicitFail("nil-deref", in.ts.False())
+		panic(pathDead{"nil *sync.Pool"})
+	}
+	if in.pools == nil {
+		in.pools = map[string][]Value{}
+	}
+	key := fmt.Sprintf("%d:%d", p.obj.id, p.off)
+	in.stubs["sync.Pool: Get returns any item previously Put (fork) or New()"] = true
+	if strings.HasSuffix(name, ".Put") {
+		in.pools[key] = append(in.pools[key], args[1])
+		return nil
+	}
+	items := in.pools[key]
+	pick := in.chooseAmong(len(items)+1, "sync-pool-get:"+key)
+	if pick > 0 {
+		it := items[pick-1]
+		in.pools[key] = append(append([]Value{}, items[:pick-1]...), items[pick:]...)
+		return []Value{it}
+	}
+	st := fn.Signature.Recv().Type().Underlying().(*types.Pointer).Elem().Underlying().(*types.Struct)
+	for i := 0; i < st.NumFields(); i++ {
+		if st.Field(i).Name() == "New" {
+			nv := in.readSlot(p.obj, p.off+in.fieldOff(st, i))
+			if cl, ok := nv.(*ClosureV); ok && cl != nil {
+				return in.invoke(cl, nil, nil, nil)
+			}
+			return []Value{&IfaceV{}}
+		}
+	}
+	return []Value{&IfaceV{}}
 }
